@@ -84,6 +84,7 @@ def plan(tier, seed):
             for lo, hi in core.chunks(len(L), 32 if tier == 'quick' else 256)]
     for i in range(len(PATHS)):
         jobs.append({'space': 'B', 'path': i, 'tier': tier, 'weight': 300})
+    jobs.append({'space': 'W', 'tier': tier, 'weight': 50})
     return jobs
 
 
@@ -152,6 +153,45 @@ def run(job, seed):
     acc = core.Acc()
     enf = world.bare_enforcer()
     b = BOUNDS[job['tier']]
+    if job['space'] == 'W':
+        # whole rules that are a single non-check token, enforced directly
+        # and through references: must deny, never raise
+        toks = ['"x"', "'x'", '""', "''", '"a:b"', 'and', 'AND', 'And', 'or',
+                'OR', 'oR', 'not', 'NOT', 'Not', '(', ')', '((', '()']
+        for tok in toks:
+            rules = {'w': tok, 'viaref': 'rule:w', 'vianot': 'not rule:w',
+                     'viaor': 'rule:w or role:r', 'viaand': '@ and rule:w'}
+            try:
+                world.set_rules(enf, rules)
+            except Exception as e:
+                acc.violation('W|load-raises', 'loading %r raised %r' %
+                              (tok, e), {'rules': rules}, 'loads', repr(e),
+                              'W')
+                continue
+            for name, exp in (('w', False), ('viaref', False),
+                              ('vianot', True), ('viaor', False),
+                              ('viaand', False)):
+                for do_raise in (False, True):
+                    acc.case('W', True)
+                    acc.ev()
+                    try:
+                        r = enf.enforce(name, {}, {'roles': []},
+                                        do_raise=do_raise)
+                        got = ('ok', bool(r))
+                    except Exception as e:
+                        got = ('exc', type(e).__name__, stage_of(e))
+                        if got[1] == 'PolicyNotAuthorized' and not exp:
+                            got = ('ok', False)
+                    if got != ('ok', exp):
+                        acc.violation(
+                            'W|%s' % (got[1] if got[0] == 'exc' else
+                                      'decision'),
+                            'rule %r (a single %r token) via %s: %r, '
+                            'expected %r' % (tok, tok, name, got, exp),
+                            {'rules': rules, 'enforce': name}, exp, got, 'W')
+                    acc.outcome('W-%s' % exp)
+        acc.sample('W', toks)
+        return acc.result()
     if job['space'] == 'A':
         L = lefts(b['atoms'])[job['lo']:job['hi']]
         for left, k in L:
